@@ -113,6 +113,7 @@ TEXT = {
         "level": "Proof (partial). Lean theorems for every byte string and every lexer state satisfying the lexer invariant: the two lexer modes agree on clean text (noPanic_agrees); "
                  "each of the four recovery handlers terminates and returns exactly the recovery-mode token stream from the restored token up to the first stop token, every token an exact slice of the input, "
                  "NodePos = start of the first, NodeEnd = end of the last (NodePos when empty), incl. the '>>' split (bad_tokens_exact, split_gt); BadNode.SQL() keeps exactly the input's gaps between tokens (bad_sql_shape). "
+                 "Regenerated tie (MF/Props/C10Handlers.lean): tools/extract/handlers.go translates the switch of each handler out of parser.go on every run into a small statement language with a Lean semantics; the kernel re-decides that the translation is the expected table, and `action_is_go` / `handler_is_go` prove that the modelled handlers ARE the skip loop over the translated switches (for every nesting value and token kind; the translated code never decrements the nesting counter below zero), so an edited stop set or nesting rule breaks a proof obligation deterministically. "
                  "The handler model is tied to parser.go on every run by the HANDLER channel through the hook VerifRecover. Not proved: that input[NodePos:NodeEnd] and SQL() lexed on their own give the same tokens "
                  "(false at a context-dependent cut: known finding site:BadNode.sliceContext) and that parse functions only pass lexer-produced states; both are evaluated on the implementation for every BadNode of every explored tree.",
         "design_ref": "DESIGN.md §4 C10",
